@@ -257,19 +257,6 @@ func genC05(out *Out, r *Rng, tier string, n int, shard int) {
 	// ToCoreClaim(nil) uses the default document loader
 	for i := 0; i < n; i++ {
 		c := randCred(r, r.Chance(45))
-		if r.Chance(30) {
-			// a context re-published under the same URL (or served differently by another loader): the same context list
-			// and type name, another context document - with or without a serialization attribute, or with another one
-			old := c.TypeName
-			c.TypeName = "KYCPoolCredential"
-			c.TypeURL = fmt.Sprintf("https://ctx.example/pool-%d.jsonld", r.Intn(2))
-			c.TypeIRI = "urn:uuid:0000pool-type"
-			for i, t := range c.TopTypes {
-				if t == old {
-					c.TopTypes[i] = c.TypeName
-				}
-			}
-		}
 		switch x := r.Intn(20); {
 		case x == 0:
 			c.SubjectTypeAs, c.OtherType = "array2", "Extra"
@@ -358,6 +345,10 @@ func genC05(out *Out, r *Rng, tier string, n int, shard int) {
 func genHistory(out *Out, r *Rng, c *ACred, vc *verifiable.W3CCredential, root *big.Int, in J, tags []string) {
 	// a second credential of the other schema kind shares the option objects
 	c2 := randCred(r, c.SerAttr == "")
+	if c2.TypeURL == c.TypeURL {
+		// one loader serves both credentials of a history: their context documents need different URLs
+		c2.TypeURL = fmt.Sprintf("https://ctx.example/second-%d.jsonld", r.Intn(1<<30))
+	}
 	vc2, _ := c2.W3C()
 	root2, err := directRoot2(c, c2)
 	if err != nil {
